@@ -751,10 +751,15 @@ class NetCDF4(FileHandler):
             for var_name, var in group.variables.items():
                 if fields is None or path + var_name in fields:
                     dims = [dim_map[dim] for dim in var.dimensions]
-                    if len(dims) == 0 and var[:] is np.ma.masked:
-                        ds[path + var_name] = dims, np.nan, dict(var.__dict__)
-                    else:
-                        ds[path + var_name] = dims, var[:], dict(var.__dict__)
+                    values = var[:]
+                    if len(dims) == 0 and values is np.ma.masked:
+                        values = np.nan
+                    elif not np.ma.is_masked(values):
+                        # netCDF4 returns a masked array even if nothing is
+                        # masked; xarray would turn it into floating point
+                        # numbers.
+                        values = np.ma.getdata(values)
+                    ds[path + var_name] = dims, values, dict(var.__dict__)
         except RuntimeError:
             raise KeyError(f"Could not load the variable {path + var_name}!")
 
